@@ -103,6 +103,66 @@ func attemptFuncs(c *Ctx) []*ssa.Function {
 	return out
 }
 
+// attemptParts: the per-attempt functions and the second halves they were split into — a function of the same package
+// that is handed the backend's *http.Response and whose result the attempt function returns as its own (`return
+// s.relayBackendResponse(ctx, w, resp, …)`). Rules about what happens after the round trip look at these too.
+var attemptRoot = map[*ssa.Function]*ssa.Function{}
+
+// attemptKeyFn: the function a construct found in an attempt part is named by — the attempt function it belongs to, so
+// that splitting the attempt does not rename a listed finding.
+func attemptKeyFn(f *ssa.Function) *ssa.Function {
+	if r, ok := attemptRoot[f]; ok {
+		return r
+	}
+	return f
+}
+
+func attemptParts(c *Ctx) []*ssa.Function {
+	out := attemptFuncs(c)
+	seen := map[*ssa.Function]bool{}
+	for _, f := range out {
+		seen[f] = true
+	}
+	for _, af := range attemptFuncs(c) {
+		eachInstr(af, func(in ssa.Instruction) {
+			cc := getCall(in)
+			if cc == nil {
+				return
+			}
+			sc := cc.StaticCallee()
+			if sc == nil || sc.Blocks == nil || sc.Pkg != af.Pkg || sc.Parent() != nil || seen[sc] {
+				return
+			}
+			takesResp := false
+			for _, p := range sc.Params {
+				if isNamed(p.Type(), "net/http", "Response") {
+					takesResp = true
+				}
+			}
+			res := sc.Signature.Results()
+			if !takesResp || res.Len() != 1 || res.At(0).Type().String() != "error" {
+				return
+			}
+			// its result is what the attempt returns
+			v, ok := in.(ssa.Value)
+			if !ok {
+				return
+			}
+			for _, ret := range returnsOf(af) {
+				for _, rv := range retResults(ret) {
+					if rv == v {
+						seen[sc] = true
+						attemptRoot[sc] = af
+						out = append(out, sc)
+						return
+					}
+				}
+			}
+		})
+	}
+	return out
+}
+
 func isBaseRecord(in ssa.Instruction, name string) bool {
 	return isCall(in, pkgCore, "BaseProxyComponents", name)
 }
@@ -243,12 +303,12 @@ func checkC19(c *Ctx, r *Report) {
 
 	// ---------- R4 success means the client saw success ----------
 	r.Rule("C19-R4", "each RecordSuccess in a per-attempt proxy function is control-dependent on a comparison of the relayed *http.Response.StatusCode and is not reachable when the stream ended by client cancellation", 2)
-	for _, af := range atts {
+	for _, af := range attemptParts(c) {
 		eachInstr(af, func(in ssa.Instruction) {
 			if !isBaseRecord(in, "RecordSuccess") {
 				return
 			}
-			key := fname(af) + ":RecordSuccess"
+			key := fname(attemptKeyFn(af)) + ":RecordSuccess"
 			guarded := false
 			for _, cf := range normFacts(condFacts(in.Block())) {
 				if mentionsField(cf.Cond, "net/http", "Response", "StatusCode", 4) {
